@@ -108,6 +108,8 @@ def check_queues(ctx, ex):
             if not (A.is_self_attr(n) and n.attr == PEND):
                 continue
             puses += 1
+            if name == "_handle_pending_epr_responses":
+                continue  # the consumption loop is executed over every short pending list (check_consumption): judged there, however it is written
             p = par.get(id(n))
             form = src(p) if p is not None else src(n)
             ok = None
@@ -905,8 +907,8 @@ SEEDS = [
     dict(id="c12-pop-last", file=X, expect="C12.Q", construct="_epr_create_requests", old="                self._epr_create_requests[request_key].pop(0)", new="                self._epr_create_requests[request_key].pop()"),
     dict(id="c12-peek-last", file=X, expect="C12.Q", construct="[key][-1]", old="        epr_cmd_data = requests[request_key][0]", new="        epr_cmd_data = requests[request_key][-1]"),
     dict(id="c12-insert-front", file=X, expect="C12.Q", construct="_epr_recv_requests", old="        self._epr_recv_requests[remote_node_id, purpose_id].append(", new="        self._epr_recv_requests[remote_node_id, purpose_id].insert(0, "),
-    dict(id="c12-pending-pop-no-break", file=X, expect="C12.Q", construct="_pending_epr_responses", old="                    self._pending_epr_responses.pop(i)\n                    break", new="                    self._pending_epr_responses.pop(i)"),
-    dict(id="c12-pending-pop0", file=X, expect="C12.Q", construct="_pending_epr_responses", old="                    self._pending_epr_responses.pop(i)", new="                    self._pending_epr_responses.pop(0)"),
+    dict(id="c12-pending-pop-no-break", file=X, expect="C12.B", construct="_handle_pending_epr_responses", old="                    self._pending_epr_responses.pop(i)\n                    break", new="                    self._pending_epr_responses.pop(i)"),
+    dict(id="c12-pending-pop0", file=X, expect="C12.B", construct="_handle_pending_epr_responses", old="                    self._pending_epr_responses.pop(i)", new="                    self._pending_epr_responses.pop(0)"),
     dict(id="c12-key-order", file=X, expect="C12.K", construct="_extract_epr_info:key", old="        request_key = remote_node_id, purpose_id", new="        request_key = purpose_id, remote_node_id"),
     dict(id="c12-role-swap", file=X, expect="C12.D", construct="_handle_last_epr_pair", old="            if is_creator:\n                self._epr_create_requests[request_key].pop(0)\n            else:\n                self._epr_recv_requests[request_key].pop(0)",
          new="            if is_creator:\n                self._epr_recv_requests[request_key].pop(0)\n            else:\n                self._epr_create_requests[request_key].pop(0)"),
